@@ -74,9 +74,17 @@ def main():
     ctx = suites.Ctx(prop, tier, seed)
     can_run_impl = b.harness_ok and os.path.exists(vlib.HARNESS_BIN)
     can_run_model = b.ocaml_ok and os.path.exists(vlib.MODEL_BIN)
+    def run_suite(suite):
+        # an observation the machinery cannot interpret (a suite that raises) is a correspondence that no longer checks
+        try:
+            suite(ctx, can_run_model)
+        except Exception:
+            import traceback
+            broken.append(("correspondence", "suite %s could not interpret the implementation's observation" % suite.__name__,
+                           traceback.format_exc()[-1200:]))
     if can_run_impl:
         for suite in spec["suites"]:
-            suite(ctx, can_run_model)
+            run_suite(suite)
     # a disagreement model/impl is a broken correspondence
     for d in ctx.disagreements[:3]:
         broken.append(("correspondence", d["suite"], "first difference: %s" % json.dumps(d["diff"])))
@@ -89,7 +97,7 @@ def main():
         for k in range(1, 1 + int(os.environ.get("VERIF_WIDEN", "5"))):
             ctx.seed = seed + 7919 * k
             for suite in spec["suites"]:
-                suite(ctx, can_run_model)
+                run_suite(suite)
             if relevant_failures():
                 break
         ctx.seed = seed
